@@ -849,7 +849,7 @@ def _flip(data, bit):
 sign_case = st.fixed_dictionaries({
     "ks": _secret(), "id": _ident(), "id2": _ident(), "msg": _blob(), "msg2": _blob(), "r": _nonce(),
     "cuts": st.lists(st.integers(0, 255), max_size=4), "vcuts": st.lists(st.integers(0, 255), max_size=2),
-    "neg": st.sampled_from(["id", "msg", "flip", "flip", "flip", "trunc", "extend", "master", "t1zero", "hzero", "negS", "unreduced", "unreduced"]),
+    "neg": st.sampled_from(["id", "msg", "flip", "flip", "flip", "trunc", "extend", "inner", "inner", "master", "t1zero", "hzero", "negS", "unreduced", "unreduced"]),
     "bits": st.lists(st.integers(0, 831), min_size=2, max_size=2)})
 
 
@@ -908,6 +908,10 @@ def sign(case, ctx):
         ctx.check(_verify(l, sig[:-1], mpk, ident, msg) != 1, "truncated signature verifies (%s)" % where, "verify/truncated-accepted")
     elif neg == "extend":
         ctx.check(_verify(l, sig + b"\0", mpk, ident, msg) != 1, "signature with a trailing byte verifies (%s)" % where, "verify/trailing-accepted")
+    elif neg == "inner":
+        for lab, alt in _inner_variants(sig):
+            ctx.case(nontrivial=True, classes=["inner:" + lab], ident=[case, lab])
+            ctx.check(_verify(l, alt, mpk, ident, msg) != 1, "signature re-encoded with %s inside its SEQUENCE verifies (%s)" % (lab, where), "verify/inner-accepted/" + lab)
     elif neg == "master":
         ctx.check(_verify(l, sig, IO.sign_master_pub(g2pt(ks + 1)), ident, msg) != 1, "signature verifies under another master key (%s)" % where,
                   "verify/other-master-accepted")
@@ -926,6 +930,34 @@ def sign(case, ctx):
                 ctx.check(_verify(l, alt, mpk, ident, msg) != 1, "signature whose %s is written as %s + p verifies (%s)" % (name, name, where), "verify/unreduced-accepted/" + name)
         if not done:
             ctx.note("no-coordinate-fits-plus-p")
+
+
+def _inner_variants(der):
+    """the same SEQUENCE re-encoded (one well-formed SEQUENCE, nothing after it) with something extra inside: a further element at the end
+    or in front, the last element twice, a non-minimal length octet"""
+    assert der[0] == 0x30
+    n, off = (der[1], 2) if der[1] < 0x80 else (int.from_bytes(der[2:2 + (der[1] & 0x7F)], "big"), 2 + (der[1] & 0x7F))
+    body = der[off:off + n]
+
+    def seq(b):
+        L = len(b)
+        return b"\x30" + (bytes([L]) if L < 0x80 else bytes([0x81, L]) if L < 0x100 else b"\x82" + L.to_bytes(2, "big")) + b
+    out = [("trailing-NULL", seq(body + b"\x05\x00")), ("trailing-OCTET-STRING", seq(body + b"\x04\x01\x00")), ("trailing-INTEGER", seq(body + b"\x02\x01\x01")),
+           ("trailing-SEQUENCE", seq(body + b"\x30\x00")), ("leading-NULL", seq(b"\x05\x00" + body)), ("trailing-zero-bytes", seq(body + b"\x00\x00"))]
+    # the last element once more
+    i = 0
+    while i < len(body):
+        ln = body[i + 1]
+        hl = 2
+        if ln & 0x80:
+            k = ln & 0x7F
+            ln = int.from_bytes(body[i + 2:i + 2 + k], "big"); hl = 2 + k
+        last = body[i:i + hl + ln]
+        i += hl + ln
+    out.append(("last-element-twice", seq(body + last)))
+    if n < 0x80:
+        out.append(("long-form-length", b"\x30\x81" + bytes([n]) + body))
+    return out
 
 
 full_case = st.fixed_dictionaries({"ks": _secret(), "id": _ident(255), "id2": st.just({"x": "00"}), "msg": _blob(), "msg2": st.just(""), "r": _nonce(),
@@ -1014,7 +1046,7 @@ def _decrypt(l, key, ident, ct):
 
 enc_case = st.fixed_dictionaries({
     "ke": _secret(), "id": _ident(), "id2": _ident(), "msg": st.one_of(_blob(), st.sampled_from([0, 1, 31, 32, 33, 127, 128, 254, 255]).map(lambda n: hb(bytes(range(n))))),
-    "r": _nonce(), "neg": st.sampled_from(["key", "idstr", "flip", "flip", "flip", "trunc", "extend", "t1zero", "master", "unreduced", "unreduced"]),
+    "r": _nonce(), "neg": st.sampled_from(["key", "idstr", "flip", "flip", "flip", "trunc", "extend", "inner", "inner", "t1zero", "master", "unreduced", "unreduced"]),
     "bits": st.lists(st.integers(0, 1 << 16), min_size=2, max_size=2)})
 
 
@@ -1101,6 +1133,10 @@ def enc(case, ctx):
         ctx.check(_decrypt(l, key, ident, ct[:-1])[0] != 1, "truncated ciphertext decrypts (%s)" % where, "decrypt/truncated-accepted")
     elif neg == "extend":
         ctx.check(_decrypt(l, key, ident, ct + b"\0")[0] != 1, "ciphertext with a trailing byte decrypts (%s)" % where, "decrypt/trailing-accepted")
+    elif neg == "inner":
+        for lab, alt in _inner_variants(ct):
+            ctx.case(nontrivial=True, classes=["inner:" + lab], ident=[case, lab])
+            ctx.check(_decrypt(l, key, ident, alt)[0] != 1, "ciphertext re-encoded with %s inside its SEQUENCE decrypts (%s)" % (lab, where), "decrypt/inner-accepted/" + lab)
     elif neg == "master":
         ke2 = ke % (NN - 1) + 1
         msk2 = Buf(128, fill=0); msk2.write(pt1_in(g1pt(ke2)).raw(), 0); msk2.write(IO.entropy_for(ke2), 96)
